@@ -425,7 +425,12 @@ class Exec:
         cls, doc = parse_results_bytes(data, self.out)
         if cls != 'intact':
             return cls
-        d = digest(data)
+        # (digest of the parsed content without wall_time: the fingerprint
+        # must not depend on how the code under test reads the clock)
+        d = digest([{'inputs': r.get('inputs'), 'results': {
+            k: v for k, v in (r.get('results') or {}).items()
+            if k != 'wall_time'}} if isinstance(r, dict) else r
+            for r in doc])
         self.sim.log.add('oracle', 'durable', [when, d])
         if d == self.last_bytes_digest:
             return cls
@@ -442,6 +447,10 @@ class Exec:
     def check_save(self, S, when):
         inc = self.cur
         led = self.ledger
+        if getattr(led, 'n_calls', 0) == 0 and any(
+                r['seq'] for r in S.values()):
+            raise HarnessError('results were saved but the trial ledger '
+                               'never saw a trial: run_once seam not reached')
         for x, rec in S.items():
             seq = rec['seq']
             E = led.executed(inc.proc.pid, x)
